@@ -201,6 +201,14 @@ def run(prog, tier):
                 if not (isinstance(e_, ast.Name) and e_.id == par_):
                     ok = False
                     why += f"; line {st_.lineno}: `{U(st_)[:80]}` stores something else than the argument `{par_}`"
+    # the kernel and the mean are told the parameter positions the caller gave: pass_spatial_data receives that argument itself
+    for st_ in ast.walk(init):
+        if isinstance(st_, ast.Call) and isinstance(st_.func, ast.Attribute) and st_.func.attr == "pass_spatial_data" and st_.args:
+            a0_ = st_.args[0]
+            if not (isinstance(a0_, ast.Name) and a0_.id in [a_.arg for a_ in init.args.args]) and not (
+                    isinstance(a0_, ast.Attribute) and isinstance(a0_.value, ast.Name) and a0_.value.id == init.args.args[0].arg):
+                ok = False
+                why += f"; line {st_.lineno}: `{U(st_)[:80]}` hands the component something else than the positions the caller gave"
     # ... of the y_err the caller passed: the constructor re-binds its data arguments only to array conversions of themselves
     for var in ("y_err", "y", "y_cov", "model_matrix"):
         for st_ in ast.walk(init):
